@@ -1,6 +1,7 @@
 package lifecycle
 
 import (
+	"errors"
 	"fmt"
 	"reflect"
 	"sort"
@@ -18,6 +19,10 @@ type UpdCase struct {
 	P       []sc.ProcSpec   `json:"p"`
 	Updates [][]sc.ProcSpec `json:"updates"`
 	Twice   bool            `json:"twice"` // apply the last configuration a second time
+	// Anchored: number of updates in which the generator put one process back unchanged because
+	// the update would otherwise have touched every process (known finding C20-restart-last-process:
+	// Run() returns when the last one is removed and the additions that follow panic the supervisor)
+	Anchored int `json:"anchored,omitempty"`
 }
 
 // launchRelevant renders the fields the statement calls launch relevant.
@@ -60,10 +65,17 @@ func checkUpd(c UpdCase) pbt.Verdict {
 	}
 	s := &sc.Scenario{Procs: c.P, FinishRounds: 3}
 	e, err := sc.Begin(s)
+	if errors.Is(err, sc.ErrLeftover) {
+		v.Skip = true
+		return v
+	}
 	if err != nil {
 		return fail("load of P failed: %v\n%s", err, sc.YAML(c.P, false, 0))
 	}
 	defer e.Finish()
+	for i := 0; i < c.Anchored; i++ {
+		v.Excluded = append(v.Excluded, "C20-restart-last-process")
+	}
 	cur := c.P
 	updates := c.Updates
 	if c.Twice && len(updates) > 0 {
@@ -406,6 +418,36 @@ func genUpd(t *rapid.T) UpdCase {
 		if len(np) == 0 {
 			np = append(np, genSpec(t, fmt.Sprintf("p%d", next), nil))
 			next++
+		}
+		// at least one process of the running configuration stays as it is
+		same := false
+		curM := byName(cur)
+		for _, p := range np {
+			if o, ok := curM[p.Name]; ok && launchRelevant(o) == launchRelevant(p) && otherFields(o) == otherFields(p) {
+				same = true
+			}
+		}
+		if !same {
+			anchor := cur[0]
+			for _, p := range cur {
+				if len(p.Deps) == 0 {
+					anchor = p
+					break
+				}
+			}
+			if len(anchor.Deps) == 0 {
+				replaced := false
+				for i := range np {
+					if np[i].Name == anchor.Name {
+						np[i] = anchor
+						replaced = true
+					}
+				}
+				if !replaced {
+					np = append([]sc.ProcSpec{anchor}, np...)
+				}
+				c.Anchored++
+			}
 		}
 		c.Updates = append(c.Updates, np)
 		cur = np
